@@ -251,7 +251,7 @@ Example ex_detections :
   ex_errors ex_vol = Some [] /\
   ex_errors (splice 45 [0] ex_vol) = Some [V_FV_CKSUM] /\       (* attributes (the erase-polarity bit) *)
   ex_errors (splice 48 [74] ex_vol) = None /\                   (* HeaderLen: files no longer parse *)
-  ex_errors (splice 48 [80] ex_vol) = Some [V_FV_HDRBLOCKS; V_FV_CKSUM] /\   (* HeaderLen, still parses *)
+  ex_errors (splice 48 [70] ex_vol) = Some [V_FV_HDRBLOCKS; V_FV_CKSUM] /\   (* HeaderLen, still parses *)
   ex_errors (splice 60 [1] ex_vol) = Some [V_FV_CKSUM] /\        (* block map *)
   ex_errors (splice (72 + 3) [1] ex_vol) = Some [V_F_HDRSUM] /\  (* file GUID *)
   ex_errors (splice (72 + 19) [65] ex_vol) = Some [V_F_LARGE] /\ (* large attribute *)
